@@ -22,10 +22,14 @@ from ._netstacks import conform, quiet_console
 SPEC_DIR = env.SPECS + "/net"
 LOCAL = ("127.0.0.1", 8101)
 KINDS = ("plain", "tls")
-ACTIONS = ["Arrive", "PeerSend", "PeerClose", "Advance", "ServiceConnects", "ServiceReceives", "ServiceReps",
+ACTIONS = ["Arrive", "PeerSend", "PeerSendHead", "PeerSendBody", "PeerClose", "Advance", "ServiceConnects", "ServiceReceives", "ServiceReps",
            "ServiceTransmits", "ServiceAll"]
 REQ = {"P": b"GET /a HTTP/1.1\r\nHost: h\r\n\r\n",
        "N": b"GET /b HTTP/1.1\r\nHost: h\r\nConnection: close\r\n\r\n"}
+# heads of requests that announce a body which arrives later (the body is BODY)
+HEAD = {"P": b"GET /c HTTP/1.1\r\nHost: h\r\nContent-Length: 2\r\n\r\n",
+        "N": b"GET /d HTTP/1.1\r\nHost: h\r\nConnection: close\r\nContent-Length: 2\r\n\r\n"}
+BODY = b"ab"
 
 
 def addr(c):
@@ -35,8 +39,9 @@ def addr(c):
 def cfg_text(k, props=True):
     s = ("SPECIFICATION Spec\nCONSTANTS\n  NConns = %(NConns)d\n  Timeout = %(Timeout)d\n  MaxAdv = %(MaxAdv)d\n"
          "  MaxFrag = %(MaxFrag)d\n  MaxReq = %(MaxReq)d\n  MaxSteps = %(MaxSteps)d\n" % k)
+    s += "  Bodies = %s\n" % ("TRUE" if k.get("Bodies") else "FALSE")
     if props:
-        s += ("INVARIANT TypeOK\nINVARIANT PersistentNeverIdleDropped\nINVARIANT ClosedForAReason\n"
+        s += ("INVARIANT TypeOK\nINVARIANT PersistentNeverIdleDropped\nINVARIANT HeadOfPersistentExempts\nINVARIANT ClosedForAReason\n"
               "PROPERTY NoEarlyDrop\nPROPERTY ActivityRestarts\n")
     return s
 
@@ -75,6 +80,7 @@ class IdleAdapter:
             raise AssertionError("expected exactly one listening socket double")
         self.socks = {}
         self.fpos = {}
+        self.bpos = {}
 
     def close(self):
         for u in reversed(self.undo):
@@ -129,7 +135,9 @@ class IdleAdapter:
         out = []
         for a, ix in self.valet.servant.ixes.items():
             rep = self.valet.reps.get(a)
-            out.append((a, ix.timeout, max(-4.0 * ix.timeout, ix.timer.stop - self.store.stamp), rep is not None and bool(rep.ended)))
+            req = self.valet.reqs.get(a)
+            out.append((a, ix.timeout, max(-4.0 * ix.timeout, ix.timer.stop - self.store.stamp), rep is not None and bool(rep.ended),
+                        req is not None and bool(getattr(req, "headed", False))))
         return tuple(out)
 
     # ---- steps
@@ -167,6 +175,21 @@ class IdleAdapter:
             else:
                 self.socks[c].push("recv", dn.data(REQ[k][pos:]))
                 self.fpos[c] = 0
+        elif name == "PeerSendHead":
+            c, k = int(args[0]), str(args[1])
+            pos = self.fpos[c]
+            self.socks[c].push("recv", dn.data(HEAD[k][pos:]))
+            self.fpos[c] = 0
+            self.bpos[c] = 0
+        elif name == "PeerSendBody":
+            c, k = int(args[0]), str(args[1])
+            pos = self.bpos.get(c, 0)
+            if k == "bpart":
+                self.socks[c].push("recv", dn.data(BODY[pos:pos + 1]))
+                self.bpos[c] = pos + 1
+            else:
+                self.socks[c].push("recv", dn.data(BODY[pos:]))
+                self.bpos[c] = len(BODY)
         elif name == "PeerClose":
             self.socks[int(args[0])].push("recv", dn.CLOSED)
         elif name == "Advance":
@@ -244,12 +267,12 @@ def run_c28(ctx):
     ctx.assume("ssl is not modelled: ServerTls / IncomerTls run over a FakeTlsContext whose handshake succeeds at once")
     ctx.assume("activity = bytes the server's recv / send calls actually moved; reading the end of the stream is no activity")
     configs = ctx.pick(
-        [{"NConns": 1, "Timeout": 2, "MaxAdv": 2, "MaxFrag": 1, "MaxReq": 2, "MaxSteps": 0},
-         {"NConns": 1, "Timeout": 0, "MaxAdv": 1, "MaxFrag": 1, "MaxReq": 1, "MaxSteps": 0},
+        [{"NConns": 1, "Timeout": 2, "MaxAdv": 2, "MaxFrag": 1, "MaxReq": 2, "MaxSteps": 0, "Bodies": True},
+         {"NConns": 1, "Timeout": 0, "MaxAdv": 1, "MaxFrag": 1, "MaxReq": 1, "MaxSteps": 0, "Bodies": True},
          {"NConns": 2, "Timeout": 1, "MaxAdv": 1, "MaxFrag": 0, "MaxReq": 1, "MaxSteps": 6}],
-        [{"NConns": 1, "Timeout": 2, "MaxAdv": 2, "MaxFrag": 2, "MaxReq": 2, "MaxSteps": 0},
-         {"NConns": 1, "Timeout": 3, "MaxAdv": 2, "MaxFrag": 1, "MaxReq": 2, "MaxSteps": 0},
-         {"NConns": 1, "Timeout": 0, "MaxAdv": 1, "MaxFrag": 1, "MaxReq": 2, "MaxSteps": 0},
+        [{"NConns": 1, "Timeout": 2, "MaxAdv": 2, "MaxFrag": 2, "MaxReq": 2, "MaxSteps": 0, "Bodies": True},
+         {"NConns": 1, "Timeout": 3, "MaxAdv": 2, "MaxFrag": 1, "MaxReq": 2, "MaxSteps": 0, "Bodies": True},
+         {"NConns": 1, "Timeout": 0, "MaxAdv": 1, "MaxFrag": 1, "MaxReq": 2, "MaxSteps": 0, "Bodies": True},
          {"NConns": 2, "Timeout": 1, "MaxAdv": 1, "MaxFrag": 0, "MaxReq": 1, "MaxSteps": 9}])
     d = env.subdir("c28")
 
@@ -269,7 +292,8 @@ def run_c28(ctx):
             ctx.diverge(Divergence("C28", "model", res.error_name or res.error, name, "specification property violated in the model",
                                    steps=[{"action": a, "state": st} for a, st in res.trace]))
             continue
-        tlc.require_coverage(res, [a for a in ACTIONS if a != "Advance" or k["Timeout"] > 0], name)
+        tlc.require_coverage(res, [a for a in ACTIONS if (a != "Advance" or k["Timeout"] > 0) and
+                                   (a not in ("PeerSendHead", "PeerSendBody") or k.get("Bodies"))], name)
         g = graph.load_dot("%s/g%d.dot" % (d, i))
         whys = set()
         for st in g.states.values():
